@@ -14,7 +14,10 @@ DEFAULT_OPTIONS = {"mode": "cli", "response_derives": "Serialize,Debug,PartialEq
 def render_schema(schema, rng, fmt=None):
     fmt = fmt or rng.choice(["sdl", "sdl", "json", "json-data"])
     if fmt == "sdl":
-        text = render_sdl(schema, rng, extend=rng.random() < 0.3, comments=rng.random() < 0.3, multiline=rng.random() < 0.7)
+        decl = False
+        if rng.random() < 0.2:
+            decl = rng.choice([True, ["ID"], ["ID", "String"], ["Int", "Float", "Boolean"]])
+        text = render_sdl(schema, rng, extend=rng.random() < 0.3, comments=rng.random() < 0.3, multiline=rng.random() < 0.7, declare_builtins=decl)
         ext = rng.choice(["graphql", "graphql", "graphqls", "gql"])
     else:
         text = render_json(schema, wrapped=(fmt == "json-data"), builtins=rng.choice(["none", "scalars", "all"]),
